@@ -139,8 +139,27 @@ func getRobustWorld(seed int64) *robustWorld {
 			"attester.FinalizeIndex/blindedKey": w.a3.blindedRK, "attester.FinalizeIndex/clientKey": w.a3.clientKey,
 			"attester.FinalizeIndex/blind": w.a3.blind,
 			"ecdsa.VerifyASN1":             w.ecSig, "ed25519.Verify": w.edSig, "ed25519.Verify/key": w.edPub, "util.UnmarshalTokenKey": w.spki,
+			"t5.UnmarshalRequest":         w.a5[3].req,
 			"quicwire.ConsumeVarintBytes": quicwire.AppendVarintBytes(nil, bytes.Repeat([]byte{0x5a}, 300)),
 			"quicwire.ConsumeUint8Bytes":  quicwire.AppendUint8Bytes(nil, bytes.Repeat([]byte{0x5a}, 40)), "quicwire.ConsumeVarint": {0xc0, 1, 2, 3, 4, 5, 6, 7},
+		}
+		{
+			x1, err1 := honestT1(p384Key(seed, "k1"), []byte("robust-batch"), hashBytes(seed, "robust-batch-n1", 32), false)
+			x2, err2 := honestT2(rsaKey(0), []byte("robust-batch"), hashBytes(seed, "robust-batch-n2", 32), false)
+			if err1 != nil || err2 != nil {
+				panic("harness: honest runs for the batch inputs failed")
+			}
+			br, err := batched.NewBasicClient().CreateTokenRequest([]tokens.TokenRequestWithDetails{x1.state.Request(), x2.state.Request(), x1.state.Request()})
+			if err != nil {
+				panic(err)
+			}
+			w.honestIn["batched.Unmarshal"] = append([]byte{}, br.Marshal()...)
+			i1, i2 := type1.NewBasicPrivateIssuer(p384Key(seed, "k1")), type2.NewBasicPublicIssuer(rsaKey(0))
+			resp, err := batched.NewBasicBatchedIssuer(batchIssuer1{i1}, batchIssuer2{i2}).EvaluateBatch(br)
+			if err != nil {
+				panic(err)
+			}
+			w.honestIn["batched.UnmarshalResponses"] = resp
 		}
 		rw = w
 	})
@@ -265,6 +284,13 @@ func callConsumer(w *robustWorld, fn string, in []byte, aux ev) string {
 	case "attester.FinalizeIndex/blind":
 		_, err := w.attester.FinalizeIndex(w.a3.clientKey, in, w.a3.blindedRK, w.anon)
 		return resErr(err)
+	case "batched.Unmarshal": // decoding alone (a long list is evaluated request by request; decoding it must stay cheap)
+		return map[bool]string{true: "ok", false: "error"}[new(batched.BatchedTokenRequest).Unmarshal(in)]
+	case "batched.UnmarshalResponses":
+		_, err := batched.UnmarshalBatchedTokenResponses(in)
+		return resErr(err)
+	case "t5.UnmarshalRequest":
+		return map[bool]string{true: "ok", false: "error"}[new(type5.BatchedPrivateTokenRequest).Unmarshal(in)]
 	case "batched.EvaluateBatch":
 		req := new(batched.BatchedTokenRequest)
 		if !req.Unmarshal(in) {
@@ -313,6 +339,9 @@ func callConsumer(w *robustWorld, fn string, in []byte, aux ev) string {
 	return "unknown-fn"
 }
 
+// where the varint-framed list starts in the honest input of the list decoders
+var robustListOffset = map[string]int{"batched.Unmarshal": 0, "batched.UnmarshalResponses": 0, "t5.UnmarshalRequest": 3, "t5.FinalizeTokens/3": 0}
+
 func execRobust(c *ctx, in ev) []ev {
 	w := getRobustWorld(c.seed)
 	fn := gS(in, "fn")
@@ -339,6 +368,19 @@ func execRobust(c *ctx, in ev) []ev {
 		case "honest+random":
 			copy(b, randBytes(newRand(c.seed, fmt.Sprintf("big-%s-%d", fn, n)), n))
 			copy(b, h)
+		case "list":
+			// a WELL-FORMED long list: the honest message's list body repeated until the message is about n bytes long,
+			// under a matching length prefix (hundreds or thousands of honest elements)
+			off := robustListOffset[fn]
+			l, wdt := quicwire.ConsumeVarint(h[off:])
+			if wdt < 0 || int(l) > len(h)-off-wdt || l == 0 {
+				panic("harness: no list in the honest input of " + fn)
+			}
+			body, tail := h[off+wdt:off+wdt+int(l)], h[off+wdt+int(l):]
+			reps := n / len(body)
+			nb := bytes.Repeat(body, reps)
+			b = append(append([]byte{}, h[:off]...), quicwire.AppendVarint(nil, uint64(len(nb)))...)
+			b = append(append(b, nb...), tail...)
 		}
 	}
 	if gBool(in, "honest") {
@@ -429,6 +471,16 @@ func genRobust(c *ctx, emit func(ev)) {
 	suite("ed25519.Verify", w.edSig, nil, false)
 	suite("ed25519.Verify/key", w.edPub, nil, false)
 	suite("util.UnmarshalTokenKey", w.spki, []lenField{{1, "u8"}, {2, "u16"}, {5, "u8"}}, true)
+	// list decoders alone, on honest lists and on well-formed lists of thousands of honest elements
+	for _, fn := range []string{"batched.Unmarshal", "batched.UnmarshalResponses", "t5.UnmarshalRequest"} {
+		suite(fn, w.honestIn[fn], []lenField{{robustListOffset[fn], "varint"}}, true)
+		for _, n := range []int{1 << 16, 1 << 18, 1 << 20} {
+			emit(ev{"op": "Call", "fn": fn, "in": B(nil), "honest": false, "big": ev{"n": n, "kind": "list"}})
+		}
+	}
+	for _, n := range []int{1 << 16, 1 << 20} {
+		emit(ev{"op": "Call", "fn": "t5.FinalizeTokens/3", "in": B(nil), "honest": false, "big": ev{"n": n, "kind": "list"}})
+	}
 	// the wire primitives themselves: length-prefixed strings with every declared length
 	for _, b := range mutations(quicwire.AppendVarintBytes(nil, randBytes(r, 40)), []lenField{{0, "varint"}}, r, true) {
 		call("quicwire.ConsumeVarintBytes", b, false)
